@@ -368,7 +368,9 @@ class Check(PropertyCheck):
         '(Gen/FieldsCode.v); the meaning that Model/FieldsIR.v gives to its primitives (field.format() = the stan of the body, '
         'linker.link_to = a tag showing the name, str.lstrip/%-format/f-string/==, isinstance on self.obj, dict/list/defaultdict '
         'operations incl. pop/KeyError/values/remove, enumerate, attrs classes as records with value semantics, the pinned '
-        '_SignatureDesc.is_documented) -- sampled against the real class by the fields_ir leg of the correspondence',
+        '_SignatureDesc.is_documented, next(... reversed ...)/any(...) over a list) and the normalisations of the translator (aliases of '
+        'self.<attribute>, inlined module-level helpers, hoisted conditional expressions, tuple assignment through temporaries) '
+        '-- sampled against the real class by the fields_ir leg of the correspondence',
         'oracle contracts (Spec/Conserve.v): what re.finditer guarantees about DOCTEST_RE / DOCTEST_EXAMPLE_RE matches '
         '(checked on every span the real `re` returned during the run)',
         'extraction ExtrOcamlBasic only + coq/ocaml/driver.ml',
